@@ -8,3 +8,4 @@ from . import naming  # noqa: F401
 from . import schemagen  # noqa: F401
 from . import plugins_ops  # noqa: F401
 from . import generic  # noqa: F401
+from . import runtime  # noqa: F401
